@@ -440,8 +440,11 @@ impl<T: Sync + Send + 'static> Nucleo<T> {
             }
             #[cfg(nucleo_verif)]
             crate::verif::point("tick.spawn", cleared as u64);
-            self.pool
-                .spawn(move || unsafe { inner.run(status, cleared) })
+            self.pool.spawn(move || unsafe {
+                inner.run(status, cleared);
+                #[cfg(nucleo_verif)]
+                crate::verif::point("run.returned", 0);
+            })
         }
         Status { changed, running }
     }
